@@ -168,7 +168,20 @@ class RebindSigCollector(SigCollector):
         self.records = self.records + [(m.sig, self.id, t)]
 
 
+class FileSigCollector(__import__("ECAgent.Collectors", fromlist=["x"]).FileCollector):
+    """The same records kept by a bundled FileCollector that buffers them (write_count far beyond the run's length, so that
+    nothing is due to be written while the run lasts; the file is the null device): what the batch returns are its records."""
+
+    def __init__(self, name, model, frequency=1):
+        import os
+        super().__init__(name, model, os.devnull, frequency=frequency, write_count=10 ** 6)
+
+    collect = SigCollector.collect
+
+
 def collector_class():
+    if CONFIG.get("file_collectors"):
+        return FileSigCollector
     if CONFIG.get("rebinding_collectors"):
         return RebindSigCollector
     return LenSigCollector if CONFIG.get("falsy_collectors") else SigCollector
